@@ -236,7 +236,11 @@ func cmdRun(args []string) int {
 			fl = append(fl, fmt.Sprintf("%s (%d instrs)", f, funcs[f]))
 		}
 	}
-	var as []string
+	as := []string{
+		"bounded claim: holds for every value of the symbolic inputs inside each harness's stated bound; nothing is claimed outside it",
+		"single-threaded execution model: sync.Mutex/RWMutex are no-ops with a lock counter, sync/atomic operations are sequentially consistent cell operations",
+		"integers are bit-vectors of their Go width (wrap-around exact); slice/string lengths are concrete shapes, contents symbolic",
+	}
 	for a := range assumptions {
 		as = append(as, a)
 	}
